@@ -68,6 +68,9 @@ def kinds():
     # (mapped class, column collection, Django model): still unknown fields
     for nm in SPECIAL_UNKNOWN:
         out.append(("ident-unknown:" + nm, "int", lambda n, nm=nm: I(nm)))
+    # a COLUMN of the table that is not an attribute of the mapped entity: unknown to the ORM
+    # backend (and to Django), a real field for Core and plain SQL
+    out.append(("ident-orm-unknown:hidden_col", "int", lambda n: I("hidden_col")))
     out.append(("neg-ident", "int", lambda n: ("un", "neg", I("a"))))
     out.append(("neg-literal", "int", lambda n: ("un", "neg", T.I(7000 + n))))
     out.append(("arith", "int", lambda n: ("bin", "add", I("a"), T.I(7000 + n))))
@@ -539,7 +542,8 @@ def run(ctx):
             if not ctx.mine(idx):
                 continue
             judge(ctx, kname, pos, t, backend, rel,
-                  unknown_field=kname.split(":")[0] in ("ident-unknown", "path-unknown"))
+                  unknown_field=kname.split(":")[0] in ("ident-unknown", "path-unknown") or
+                  (kname.startswith("ident-orm-unknown") and backend in ("sqlalchemy-orm", "django")))
             if idx % 701 == 0:
                 ctx.sample({"kind": kname, "position": pos, "backend": backend,
                             "filter": to_text(t)})
@@ -608,4 +612,5 @@ def replay(ctx, case):
     t = drive.parse_term(case["filter"])[1]
     rel = any(n[0] in ("attr", "lam") for n in T.walk(t)) and case["kind"] in [k[0] for k in REL_KINDS]
     judge(ctx, case["kind"], case["position"], t, case["backend"], rel,
-          case["kind"].split(":")[0] in ("ident-unknown", "path-unknown"))
+          case["kind"].split(":")[0] in ("ident-unknown", "path-unknown") or
+          (case["kind"].startswith("ident-orm-unknown") and case["backend"] in ("sqlalchemy-orm", "django")))
